@@ -222,6 +222,36 @@ func init() {
 					if err != nil {
 						ob["r"] = "unstable:" + err.Error()
 					}
+				case "waitsame":
+					// every live member holds the same routing table (no balancer is run; the coordinator pushes again when the
+					// tables still differ after 300 ms: a push that was overtaken by an older one leaves a member behind)
+					t0 := time.Now()
+					deadline := time.Now().Add(15 * time.Second)
+					same := false
+					last := time.Now()
+					for time.Now().Before(deadline) {
+						live := cl.Live()
+						same = true
+						for _, m := range live {
+							if m.RoutingSignature() != live[0].RoutingSignature() {
+								same = false
+							}
+						}
+						if same {
+							break
+						}
+						if time.Since(last) > 300*time.Millisecond {
+							if c := cl.Coordinator(); c != nil {
+								c.DB.VerifRT().UpdateEagerly()
+							}
+							last = time.Now()
+						}
+						time.Sleep(20 * time.Millisecond)
+					}
+					ob = map[string]interface{}{"r": "ok", "t0": t0.UnixMilli(), "t1": time.Now().UnixMilli()}
+					if !same {
+						ob["r"] = "unstable:routing tables differ"
+					}
 				case "waitpassive":
 					// like waitstable, but the harness only watches: nothing pushes the routing table or runs a balancer
 					// except the members' own timers (RoutingTablePushInterval, TriggerBalancerInterval)
